@@ -12,14 +12,14 @@ def sh(cmd, cwd=None, timeout=3600):
     return p.returncode, p.stdout
 
 def verify(sdir):
-    wt = "/tmp/seedverify/wt"
+    wt = "/tmp/seedverify/wt" + os.environ.get("SEEDTEST_SLOT", "")
     sh(["git", "-C", "/repo", "worktree", "remove", "--force", wt])
     shutil.rmtree(wt, ignore_errors=True)
     os.makedirs("/tmp/seedverify", exist_ok=True)
     rc, out = sh(["git", "-C", "/repo", "worktree", "add", "--detach", wt, "HEAD"])
     assert rc == 0, out
     res = {}
-    tgt = ["--target-dir", "/tmp/seedverify/target"]
+    tgt = ["--target-dir", "/tmp/seedverify/target" + os.environ.get("SEEDTEST_SLOT", "")]
     try:
         rc, out = sh(["git", "apply", os.path.join(sdir, "patch.diff")], cwd=wt)
         res["patch_applies"] = rc == 0
@@ -46,7 +46,7 @@ def verify(sdir):
 
 def run_checks_scratch(sdir, props):
     """Like run_checks, but against a scratch worktree (CBVERIF_REPO) so that /repo stays untouched."""
-    wt = "/tmp/seedscratch/wt"
+    wt = "/tmp/seedscratch/wt" + os.environ.get("SEEDTEST_SLOT", "")
     sh(["git", "-C", "/repo", "worktree", "remove", "--force", wt])
     shutil.rmtree(wt, ignore_errors=True)
     os.makedirs("/tmp/seedscratch", exist_ok=True)
